@@ -71,6 +71,8 @@ enum Kind {
     Iter,
     /// a `for` loop reading the item and loop.index / index0 / first / last / length, with an else branch
     ForMeta,
+    /// identity list comprehension `[ch for ch in x]`: 0 itself, 1 `[..][a]`, 2 `[..][a:b:c]`, 3 `| length`, 4 `| join(sep="|")`
+    Comp(u8),
     /// `truncate(length=a)` / `truncate(length=a, end=b)`
     Trunc(bool),
 }
@@ -104,6 +106,7 @@ fn tpl_name(kind: Kind, opt: bool) -> String {
         Kind::Rev => "rev".into(),
         Kind::Iter => "iter".into(),
         Kind::ForMeta => "formeta".into(),
+        Kind::Comp(v) => format!("comp{v}"),
         Kind::Trunc(false) => "trunc".into(),
         Kind::Trunc(true) => "trunce".into(),
     }
@@ -117,6 +120,11 @@ fn tpl_src(kind: Kind, opt: bool) -> String {
         Kind::Rev => "{{ x | reverse | probe }}".into(),
         Kind::Iter => "{% for ch in x %}{{ ch | push }}{% endfor %}".into(),
         Kind::ForMeta => "{% for ch in x %}{{ [ch, loop.index, loop.index0, loop.first, loop.last, loop.length] | push }}{% else %}{{ \"EMPTY\" | push }}{% endfor %}".into(),
+        Kind::Comp(0) => "{{ ([ch for ch in x]) | probe }}".into(),
+        Kind::Comp(1) => "{{ ([ch for ch in x][a]) | probe }}".into(),
+        Kind::Comp(2) => "{{ ([ch for ch in x][a:b:c]) | probe }}".into(),
+        Kind::Comp(3) => "{{ [ch for ch in x] | length | probe }}".into(),
+        Kind::Comp(_) => "{{ [ch for ch in x] | join(sep=\"|\") | probe }}".into(),
         Kind::Trunc(false) => "{{ x | truncate(length=a) | probe }}".into(),
         Kind::Trunc(true) => "{{ x | truncate(length=a, end=b) | probe }}".into(),
     }
@@ -180,7 +188,7 @@ fn engine() -> Tera {
             tpls.push((tpl_name(Kind::Slice(f), opt), tpl_src(Kind::Slice(f), opt)));
         }
     }
-    for k in [Kind::Len, Kind::Rev, Kind::Iter, Kind::ForMeta, Kind::Trunc(false), Kind::Trunc(true)] {
+    for k in [Kind::Len, Kind::Rev, Kind::Iter, Kind::ForMeta, Kind::Comp(0), Kind::Comp(1), Kind::Comp(2), Kind::Comp(3), Kind::Comp(4), Kind::Trunc(false), Kind::Trunc(true)] {
         tpls.push((tpl_name(k, false), tpl_src(k, false)));
     }
     tera.add_raw_templates(tpls).expect("probe templates");
@@ -188,7 +196,7 @@ fn engine() -> Tera {
 }
 
 fn classify_err(msg: &str) -> String {
-    let table: [(&str, &str); 14] = [
+    let table: [(&str, &str); 15] = [
         ("Cannot index into an undefined value", "recv-undefined"),
         ("Cannot slice an undefined value", "recv-undefined"),
         ("Index expression is undefined", "index-undefined"),
@@ -203,6 +211,7 @@ fn classify_err(msg: &str) -> String {
         ("Slicing can only be used on", "not-sliceable"),
         ("has no length", "no-length"),
         ("cannot be reversed", "not-reversible"),
+        ("Iteration not possible", "not-iterable"),
     ];
     for (pat, class) in table {
         if msg.contains(pat) {
@@ -286,6 +295,19 @@ fn model_reqs(c: &Case, imp: &str) -> Vec<(String, String)> {
         }
         Kind::Len => out.push((format!("len {}", c.x.wire()), imp.to_string())),
         Kind::Rev => out.push((format!("rev {}", c.x.wire()), imp.to_string())),
+        Kind::Comp(v) => {
+            let x = c.x.wire();
+            let req = match v {
+                0 => Some(format!("comp {x}")),
+                1 => Some(format!("compidx {x} {}", c.a.wire())),
+                2 => Some(format!("compslice {x} {} {} {}", c.a.wire(), c.b.wire(), c.c.wire())),
+                3 => Some(format!("complen {x}")),
+                _ => c.x.val().as_str().map(|_| format!("compjoin {x}")),
+            };
+            if let Some(r) = req {
+                out.push((r, imp.to_string()));
+            }
+        }
         Kind::ForMeta => {
             out.push((format!("for {}", c.x.wire()), imp.to_string()));
             let xv = c.x.val();
@@ -609,6 +631,38 @@ fn oracle(c: &Case, imp: &str) -> Result<bool, String> {
             }
             _ => Ok(false),
         },
+        Kind::Comp(v) => {
+            // a comprehension over a string goes by characters and always builds a LIST
+            let xv = c.x.val();
+            let items: Vec<Value> = if let Some(s) = xv.as_str() {
+                s.chars().map(|ch| Value::from(ch.to_string())).collect()
+            } else if let Some(a) = xv.as_array() {
+                a.to_vec()
+            } else if let Some(b) = xv.as_bytes() {
+                b.iter().map(|x| Value::from(*x as u64)).collect()
+            } else {
+                return Ok(false);
+            };
+            let list = Value::from(items.clone());
+            match v {
+                0 => {
+                    let w = format!("ok {}", encode(&list));
+                    if imp == w { Ok(true) } else { Err(format!("[ch for ch in x] must be the list of items `{w}`, engine `{imp}`")) }
+                }
+                1 => oracle(&Case { kind: Kind::Idx, x: Opnd::Val(list), ..c.clone() }, imp).map_err(|d| format!("[ch for ch in x][a] on the list of items: {d}")),
+                2 => oracle(&Case { kind: Kind::Slice(7), x: Opnd::Val(list), ..c.clone() }, imp).map_err(|d| format!("[ch for ch in x][a:b:c] on the list of items: {d}")),
+                3 => {
+                    let w = format!("ok u64:{}", items.len());
+                    if imp == w { Ok(true) } else { Err(format!("[ch for ch in x] | length: want `{w}`, engine `{imp}`")) }
+                }
+                _ => {
+                    let Some(s) = xv.as_str() else { return Ok(false) };
+                    let want: String = s.chars().map(|ch| ch.to_string()).collect::<Vec<_>>().join("|");
+                    let got = imp.strip_prefix("ok ").and_then(decode);
+                    if got.as_ref().and_then(|g| g.as_str()) == Some(want.as_str()) { Ok(true) } else { Err(format!("[ch for ch in x] | join(sep=\"|\"): want {want:?}, engine `{imp}`")) }
+                }
+            }
+        }
         Kind::ForMeta => {
             // items by characters / elements / bytes, and the loop variables computed from the
             // number of characters (`chars().count()`), elements or bytes
@@ -991,8 +1045,15 @@ fn gen_text_ops(rng: &mut Rng, n_random: usize, max_len: usize, out: &mut Vec<Ca
     let none = || Opnd::Missing;
     for s in &strings {
         let nchars = s.as_str().unwrap().chars().count();
-        for kind in [Kind::Len, Kind::Rev, Kind::Iter, Kind::ForMeta] {
+        for kind in [Kind::Len, Kind::Rev, Kind::Iter, Kind::ForMeta, Kind::Comp(0), Kind::Comp(3), Kind::Comp(4)] {
             out.push(Case { kind, opt: false, x: Opnd::Val(s.clone()), a: none(), b: none(), c: none(), stream: "text", lit: 0 });
+        }
+        {
+            let small = |rng: &mut Rng| if rng.chance(1, 5) { Value::none() } else { Value::from(rng.range(-4, 4)) };
+            let i = Value::from(rng.range(-(nchars as i64) - 1, nchars as i64 + 1));
+            out.push(Case { kind: Kind::Comp(1), opt: false, x: Opnd::Val(s.clone()), a: Opnd::Val(i), b: none(), c: none(), stream: "text.comprehension", lit: 0 });
+            let st = Value::from(*rng.pick(&[1i64, 1, 2, -1, -1, -2, 3]));
+            out.push(Case { kind: Kind::Comp(2), opt: false, x: Opnd::Val(s.clone()), a: Opnd::Val(small(rng)), b: Opnd::Val(small(rng)), c: Opnd::Val(st), stream: "text.comprehension", lit: 0 });
         }
         let mut ns: Vec<usize> = vec![0, 1, nchars.saturating_sub(1), nchars, nchars + 1, 1000];
         ns.push(rng.below(nchars + 2));
@@ -1013,12 +1074,19 @@ fn gen_text_ops(rng: &mut Rng, n_random: usize, max_len: usize, out: &mut Vec<Ca
     }
     for len in [0usize, 1, 2, 3, 5, 9, 33] {
         let a = Value::from((0..len).map(|_| random_elem(rng)).collect::<Vec<_>>());
-        out.push(Case { kind: Kind::ForMeta, opt: false, x: Opnd::Val(a), a: none(), b: none(), c: none(), stream: "text.loop-array", lit: 0 });
+        out.push(Case { kind: Kind::ForMeta, opt: false, x: Opnd::Val(a.clone()), a: none(), b: none(), c: none(), stream: "text.loop-array", lit: 0 });
         let b = Value::bytes((0..len).map(|_| rng.below(256) as u8).collect::<Vec<u8>>());
-        out.push(Case { kind: Kind::ForMeta, opt: false, x: Opnd::Val(b), a: none(), b: none(), c: none(), stream: "text.loop-bytes", lit: 0 });
+        out.push(Case { kind: Kind::ForMeta, opt: false, x: Opnd::Val(b.clone()), a: none(), b: none(), c: none(), stream: "text.loop-bytes", lit: 0 });
+        for x in [a.clone(), b] {
+            for v in [0u8, 3] {
+                out.push(Case { kind: Kind::Comp(v), opt: false, x: Opnd::Val(x.clone()), a: none(), b: none(), c: none(), stream: "text.comprehension", lit: 0 });
+            }
+            out.push(Case { kind: Kind::Comp(1), opt: false, x: Opnd::Val(x.clone()), a: Opnd::Val(Value::from(-1)), b: none(), c: none(), stream: "text.comprehension", lit: 0 });
+            out.push(Case { kind: Kind::Comp(2), opt: false, x: Opnd::Val(x.clone()), a: Opnd::Val(Value::none()), b: Opnd::Val(Value::none()), c: Opnd::Val(Value::from(-2)), stream: "text.comprehension", lit: 0 });
+        }
     }
     for v in [Value::from(3), Value::none(), Value::from(true), Value::bytes(vec![1u8, 2, 3])] {
-        for kind in [Kind::Len, Kind::Rev] {
+        for kind in [Kind::Len, Kind::Rev, Kind::Comp(0)] {
             out.push(Case { kind, opt: false, x: Opnd::Val(v.clone()), a: none(), b: none(), c: none(), stream: "text.other", lit: 0 });
         }
     }
@@ -1131,6 +1199,7 @@ fn replay_json(c: &Case, imp: &str, extra: serde_json::Value) -> serde_json::Val
     let (form, has_end) = match c.kind {
         Kind::Slice(f) => (f as i64, false),
         Kind::Trunc(e) => (-1, e),
+        Kind::Comp(v) => (v as i64, false),
         _ => (-1, false),
     };
     let kind = match c.kind {
@@ -1140,6 +1209,7 @@ fn replay_json(c: &Case, imp: &str, extra: serde_json::Value) -> serde_json::Val
         Kind::Rev => "rev",
         Kind::Iter => "iter",
         Kind::ForMeta => "formeta",
+        Kind::Comp(_) => "comp",
         Kind::Trunc(_) => "trunc",
     };
     serde_json::json!({
@@ -1160,6 +1230,7 @@ fn case_from_replay(j: &serde_json::Value) -> Case {
         "rev" => Kind::Rev,
         "iter" => Kind::Iter,
         "formeta" => Kind::ForMeta,
+        "comp" => Kind::Comp(j["form"].as_i64().unwrap_or(0) as u8),
         "trunc" => Kind::Trunc(j["has_end"].as_bool().unwrap_or(false)),
         k => panic!("unknown kind {k}"),
     };
@@ -1390,7 +1461,7 @@ fn process_batch(tera: &Tera, exe: &std::path::Path, threads: usize, cases: Vec<
         report.evaluations += 1;
         acc.total += 1;
         let class = if ev.imp.starts_with("err") { ev.imp.clone() } else { ev.imp.split(' ').next().unwrap_or("").to_string() };
-        let kind = match c.kind { Kind::Idx => "index", Kind::Slice(_) => "slice", Kind::Len => "length", Kind::Rev => "reverse", Kind::Iter => "for", Kind::ForMeta => "for-loop-vars", Kind::Trunc(_) => "truncate" };
+        let kind = match c.kind { Kind::Idx => "index", Kind::Slice(_) => "slice", Kind::Len => "length", Kind::Rev => "reverse", Kind::Iter => "for", Kind::ForMeta => "for-loop-vars", Kind::Comp(_) => "comprehension", Kind::Trunc(_) => "truncate" };
         report.count(&format!("outcome.{kind}.{class}"));
         report.count(&format!("stream.{}", c.stream));
         if let Kind::Slice(f) = c.kind {
@@ -1457,7 +1528,7 @@ fn main() {
         let j: serde_json::Value = serde_json::from_str(&text).expect("replay json");
         // accepted shapes: the case itself, the file the check writes for a property violation
         // ({"replay": case}), or for a broken correspondence ({"no_longer_checks": [{"case": case}, ..]})
-        let is_case = |v: &serde_json::Value| v.get("kind").and_then(|k| k.as_str()).is_some_and(|k| ["idx", "slice", "len", "rev", "iter", "formeta", "trunc"].contains(&k));
+        let is_case = |v: &serde_json::Value| v.get("kind").and_then(|k| k.as_str()).is_some_and(|k| ["idx", "slice", "len", "rev", "iter", "formeta", "comp", "trunc"].contains(&k));
         let j = if is_case(&j) {
             j
         } else if is_case(&j["replay"]) {
@@ -1595,7 +1666,7 @@ fn main() {
                     Kind::Idx => "correspondence:get_item",
                     Kind::Slice(_) => "correspondence:slice",
                     Kind::Len | Kind::Rev => "correspondence:len-reverse",
-                    Kind::Iter | Kind::ForMeta => "correspondence:string-iteration",
+                    Kind::Iter | Kind::ForMeta | Kind::Comp(_) => "correspondence:string-iteration",
                     Kind::Trunc(_) => "correspondence:truncate",
                 };
                 // the shrunk case may disagree on another of its requests: report the first that does
